@@ -285,6 +285,17 @@ Fixpoint xml_tree (v : xval) : list node :=
                           (sort_keys (map (fun kv => (fst kv, xml_tree (snd kv))) l)))]
   end.
 
+
+(* element names are the exporter's constants; an attribute is "key" or a map key that is a plain ASCII name *)
+Fixpoint plain_names (n : node) : bool :=
+  match n with
+  | Tx _ => true
+  | El name a kids =>
+      existsb (str_eqb name) [s_list; s_entry; s_map] &&
+      forallb (fun kv => str_eqb (fst kv) s_key || attr_name_ok (fst kv)) a &&
+      forallb plain_names kids
+  end.
+
 (* ====================================================================== *)
 (*  Specification: a parser for the emitted subset of XML 1.0             *)
 (* ====================================================================== *)
@@ -632,7 +643,28 @@ Inductive dval :=
 | DL (l : list dval)
 | DM (l : list (str * dval)).
 
+Section AllSome.
+Context {A B : Type}.
+Variable f : A -> option B.
+Fixpoint all_some (l : list A) : option (list B) :=
+  match l with
+  | [] => Some []
+  | x :: r =>
+      match f x, all_some r with
+      | Some y, Some ys => Some (y :: ys)
+      | _, _ => None
+      end
+  end.
+End AllSome.
+
 (* the content of an entry: nothing (the empty string), character data, or one list/map element *)
+Definition entry_content (dec : node -> option dval) (ek : list node) : option dval :=
+  match ek with
+  | [] => Some (DS [])
+  | [x] => dec x
+  | _ => None
+  end.
+
 Fixpoint xml_decode (n : node) : option dval :=
   match n with
   | Tx s => Some (DS s)
@@ -640,24 +672,17 @@ Fixpoint xml_decode (n : node) : option dval :=
       if str_eqb name s_list then
         match attrs with
         | [] =>
-            match
-              (fix items (l : list node) : option (list dval) :=
-                 match l with
-                 | [] => Some []
-                 | El en ea ek :: r =>
-                     if str_eqb en s_entry && match ea with [] => true | _ => false end then
-                       match (match ek with
-                              | [] => Some (DS [])
-                              | [x] => xml_decode x
-                              | _ => None
-                              end), items r with
-                       | Some x, Some xs => Some (x :: xs)
-                       | _, _ => None
-                       end
-                     else None
-                 | Tx _ :: _ => None
-                 end) kids
-            with Some xs => Some (DL xs) | None => None end
+            match all_some (fun k => match k with
+                                     | El en ea ek =>
+                                         match ea with
+                                         | [] => if str_eqb en s_entry then entry_content xml_decode ek else None
+                                         | _ => None
+                                         end
+                                     | Tx _ => None
+                                     end) kids with
+            | Some xs => Some (DL xs)
+            | None => None
+            end
         | _ => None
         end
       else if str_eqb name s_map then
@@ -666,28 +691,23 @@ Fixpoint xml_decode (n : node) : option dval :=
         | _ =>
             match attrs with
             | [] =>
-                match
-                  (fix items (l : list node) : option (list (str * dval)) :=
-                     match l with
-                     | [] => Some []
-                     | El en ea ek :: r =>
-                         match ea with
-                         | [(a, key)] =>
-                             if str_eqb en s_entry && str_eqb a s_key then
-                               match (match ek with
-                                      | [] => Some (DS [])
-                                      | [x] => xml_decode x
-                                      | _ => None
-                                      end), items r with
-                               | Some x, Some xs => Some ((key, x) :: xs)
-                               | _, _ => None
-                               end
-                             else None
-                         | _ => None
-                         end
-                     | Tx _ :: _ => None
-                     end) kids
-                with Some xs => Some (DM xs) | None => None end
+                match all_some (fun k => match k with
+                                         | El en ea ek =>
+                                             match ea with
+                                             | [(a, key)] =>
+                                                 if str_eqb en s_entry && str_eqb a s_key
+                                                 then match entry_content xml_decode ek with
+                                                      | Some x => Some (key, x)
+                                                      | None => None
+                                                      end
+                                                 else None
+                                             | _ => None
+                                             end
+                                         | Tx _ => None
+                                         end) kids with
+                | Some xs => Some (DM xs)
+                | None => None
+                end
             | _ => None
             end
         end
